@@ -110,6 +110,25 @@ def judge(ctx, case):
     except BaseException as exc:
         ctx.violation("transform", "constructor-raised", case, repr(exc), innermost_shapepy_frame(exc))
         return
+    # questions asked before the first transformation (whatever they cache
+    # must not survive it)
+    try:
+        with call_limit(120):
+            _ = (0.1, 0.2) in shape
+            shape.box()
+            float(shape)
+            Sp.IntegrateShape.polynomial(shape, 1, 0)
+            for j in shape.jordans:
+                float(j)
+                j.box()
+                for sg in j.segments:
+                    sg(0.5)
+                    sg.box()
+                if not curved:
+                    _ = j & fresh.jordans[0]
+    except BaseException as exc:
+        ctx.violation("transform", "raised-in-warm-up", case, repr(exc), innermost_shapepy_frame(exc))
+        return
     model = [lib.tup(c) for c in curves0]
     exact = rational
     region0 = lib.spec_region(spec)
@@ -137,6 +156,28 @@ def judge(ctx, case):
             ctx.violation("transform", "control-points-differ", case,
                           "%s step %d %r: library curve %r not among the model's" % (phase, n, step, bad[:2] if bad else None), step["k"] + ":" + where)
             return
+        # light observations on the same object between the steps
+        try:
+            with call_limit(120):
+                b = shape.box()
+                bx = (min(float(p[0]) for c in model for sg in c for p in sg), min(float(p[1]) for c in model for sg in c for p in sg),
+                      max(float(p[0]) for c in model for sg in c for p in sg), max(float(p[1]) for c in model for sg in c for p in sg))
+                gotb = (float(b.lowpt[0]), float(b.lowpt[1]), float(b.toppt[0]), float(b.toppt[1]))
+                if any(abs(x - y) > 1e-9 * size for x, y in zip(gotb, bx)):
+                    ctx.violation("transform", "box-after-step", case, "%s step %d %r: box %r, model %r" % (phase, n, step, gotb, bx), step["k"])
+                    return
+                for j, mc in zip(shape.jordans, got):
+                    sg = j.segments[0]
+                    a, w = sg(0.5), rg.bez_eval([rg.fl(q) for q in mc[0]], 0.5)
+                    if rg.dist(a, w) > 1e-9 * size:
+                        ctx.violation("transform", "segment-evaluation-after-step", case,
+                                      "%s step %d %r: segment(1/2) = %r, control points say %r" % (phase, n, step, rg.fl(a), w), step["k"])
+                        return
+                if phase == "forward" and pts:
+                    region_now = None
+        except BaseException as exc:
+            ctx.violation("transform", "raised-in-observation", case, repr(exc), innermost_shapepy_frame(exc))
+            return
         if exact:
             ctx.count("stratum:rational-exact")
             badt = [v for c in got for s in c for p in s for v in p if not rg.is_exact(v)]
@@ -144,9 +185,18 @@ def judge(ctx, case):
                 ctx.violation("transform", "rational-became-float", case, "%s step %d %r: %r" % (phase, n, step, badt[:2]), step["k"])
                 return
     # observations after the full forward sequence are made on a second object
+    # that was asked the same questions before being transformed
     try:
         with call_limit(240):
             shape2 = lib.build(spec)
+            _ = (0.1, 0.2) in shape2
+            shape2.box()
+            float(shape2)
+            Sp.IntegrateShape.polynomial(shape2, 1, 0)
+            Sp.IntegrateShape.polynomial(shape2, 1, 1)
+            for j in shape2.jordans:
+                float(j)
+                j.box()
             model2 = [lib.tup(c) for c in curves0]
             pts2 = list(pts0)
             for step in steps:
